@@ -1,4 +1,146 @@
-/- Driver of the `farm` world (stub: to be written by the owner of this world). -/
+/-
+  Driver of the `farm` world (kind=farm | fwlr in the `W` header): replays an ops file through
+  `Mx.Farm.step` and prints one result line per op line.  Import-free apart from Core/Driver.
+-/
+import MxModel.Core.Farm
 import MxModel.Driver.Proto
 
-def main : IO Unit := Mx.Proto.mainLoop () (fun s _ => (s, none))
+open Mx Mx.Farm Mx.Proto
+
+namespace Mx.FarmDriver
+
+def parseOptNat : String → Option (Option Nat)
+  | "-" => some none
+  | s => s.toNat?.map some
+
+def parsePay (s : String) : Option (Nat × Nat) :=
+  match s.splitOn ":" with
+  | [n, a] => do pure (← n.toNat?, ← a.toNat?)
+  | _ => none
+
+def parsePays (ws : List String) : Option (List (Nat × Nat)) := ws.mapM parsePay
+
+def parseOp : List String → Option Op
+  | "enter" :: c :: o :: a :: rest => do
+      pure (.enter (← c.toNat?) (← parseOptNat o) (← a.toNat?) (← parsePays rest))
+  | "enterOB" :: c :: u :: a :: rest => do
+      pure (.enterOB (← c.toNat?) (← u.toNat?) (← a.toNat?) (← parsePays rest))
+  | "claim" :: c :: o :: rest => do pure (.claim (← c.toNat?) (← parseOptNat o) (← parsePays rest))
+  | "claimOB" :: c :: rest => do pure (.claimOB (← c.toNat?) (← parsePays rest))
+  | "compound" :: c :: o :: rest => do pure (.compound (← c.toNat?) (← parseOptNat o) (← parsePays rest))
+  | ["exit", c, o, p] => do
+      let (n, a) ← parsePay p
+      pure (.exit (← c.toNat?) (← parseOptNat o) n a)
+  | "merge" :: c :: o :: rest => do pure (.merge (← c.toNat?) (← parseOptNat o) (← parsePays rest))
+  | ["claimBoosted", c, u] => do pure (.claimBoosted (← c.toNat?) (← parseOptNat u))
+  | ["transfer", a, b, n, x] => do pure (.transfer (← a.toNat?) (← b.toNat?) (← n.toNat?) (← x.toNat?))
+  | ["setEnergy", u, a, l, t] => do pure (.setEnergy (← u.toNat?) (← a.toInt?) (← l.toNat?) (← t.toNat?))
+  | ["updateEnergy", u] => do pure (.updateEnergy (← u.toNat?))
+  | ["setPerBlock", c, x] => do pure (.setPerBlock (← c.toNat?) (← x.toNat?))
+  | ["startProduce", c] => do pure (.startProduce (← c.toNat?))
+  | ["endProduce", c] => do pure (.endProduce (← c.toNat?))
+  | ["setPct", c, p] => do pure (.setPct (← c.toNat?) (← p.toNat?))
+  | ["setFactors", c, m, e, f, me, mf] => do
+      pure (.setFactors (← c.toNat?) ⟨← m.toNat?, ← e.toNat?, ← f.toNat?, ← me.toNat?, ← mf.toNat?⟩)
+  | ["collect", c] => do pure (.collect (← c.toNat?))
+  | ["pause", c] => do pure (.pause (← c.toNat?))
+  | ["resume", c] => do pure (.resume (← c.toNat?))
+  | ["setPenalty", c, p] => do pure (.setPenalty (← c.toNat?) (← p.toNat?))
+  | ["setMinEpochs", c, n] => do pure (.setMinEpochs (← c.toNat?) (← n.toNat?))
+  | ["hubWhitelist", u, a] => do pure (.hubWhitelist (← u.toNat?) (← a.toNat?))
+  | ["hubRemove", u, a] => do pure (.hubRemove (← u.toNat?) (← a.toNat?))
+  | ["hubBlacklist", a] => do pure (.hubBlacklist (← a.toNat?))
+  | ["scWhitelist", a] => do pure (.scWhitelist (← a.toNat?))
+  | ["scUnwhitelist", a] => do pure (.scUnwhitelist (← a.toNat?))
+  | ["advance", b, e] => do pure (.advance (← b.toNat?) (← e.toNat?))
+  | "bad" :: _ => some .bad
+  | _ => none
+
+def b01 (b : Bool) : String := if b then "1" else "0"
+
+def showFactors (f : Factors) : String := s!"{f.maxF},{f.cE},{f.cF},{f.minE},{f.minF}"
+
+def showCfg : Option BCfg → String
+  | none => "none"
+  | some c => s!"{c.lastUpdateWeek}:" ++ "/".intercalate (c.ring.map showFactors)
+
+def showEnergy : Option Weekly.Energy → String
+  | none => "-"
+  | some e => s!"{e.amount},{e.lastUpdateEpoch},{e.totalLocked}"
+
+def showProgress : Option Weekly.ClaimProgress → String
+  | none => "-"
+  | some p => s!"{p.week},{p.energy.amount},{p.energy.lastUpdateEpoch},{p.energy.totalLocked}"
+
+def showRewards : List (Weekly.Tok × Nat) → String
+  | [] => "-"
+  | l => ",".intercalate (l.map fun p => toString p.2)
+
+def nonces (s : St) : List Nat := (List.range s.lastNonce).map (· + 1)
+
+def showUser (s : St) (u : Nat) : String :=
+  let hs := (nonces s).filterMap fun n =>
+    let h := s.hold u n
+    if h = 0 then none else some s!"{n}:{h}"
+  let hs := if hs.isEmpty then "-" else ",".intercalate hs
+  s!"u{u}={s.userTotal u};{showProgress (s.w.progress u)};{showEnergy (s.energy u)};{hs}"
+
+def outstanding (s : St) (n : Nat) : Nat := (s.users.map fun u => s.hold u n).sum
+
+def showTok (s : St) (n : Nat) : Option String :=
+  if outstanding s n = 0 then none
+  else match s.attrs n with
+    | some a => some s!"n{n}={a.rps},{a.epoch},{a.comp},{a.amt},{a.owner}"
+    | none => some s!"n{n}=?"
+
+def showWeek (s : St) (w : Nat) : String :=
+  s!"{w}:{s.b.accum w},{s.b.remaining w},{s.b.farmSupplyWeek w},{s.w.totalEnergy w},{s.w.totalLocked w},{showRewards (s.w.totalRewards w)}"
+
+def showState (s : St) : String :=
+  let W := (s.week).getD 0
+  let lo := if W > 6 then W - 6 else 1
+  let weeks := (List.range (W + 1 - lo)).map fun i => showWeek s (lo + i)
+  let bal := if s.sameTok then s!"{s.balFarming + s.balReward},{s.balFarming + s.balReward}"
+             else s!"{s.balFarming},{s.balReward}"
+  s!"rps={s.rps} res={s.reserve} sup={s.supply} last={s.lastBlock} pb={s.perBlock} prod={b01 s.produce} " ++
+  s!"pct={s.pct} act={b01 s.active} pen={s.penaltyPct},{s.minFarmingEpochs} bal={bal} blk={s.block} ep={s.epoch} wk={W} " ++
+  s!"gen={s.generated} paid={s.paid} pbase={s.paidBase} pboost={s.paidBoosted} bud={s.baseBudget} burn={s.penaltyBurned} " ++
+  s!"und={s.undist} lc={s.lastCollect} cfg={showCfg s.b.cfg} g={s.w.lastGlobalUpdateWeek},{s.w.firstBucketId} " ++
+  "wks=" ++ " ".intercalate weeks ++ " U " ++ " ".intercalate (s.users.map (showUser s)) ++
+  " T " ++ " ".intercalate ((nonces s).filterMap (showTok s))
+
+def initOf (ws : List String) : St :=
+  let kind := if kv ws "kind" = some "fwlr" then Kind.noMint else Kind.mint
+  let same := kvNat ws "same" = some 1
+  let dsc := (kvNat ws "dsc").getD 1000000000000
+  let pb := (kvNat ws "pb").getD 1000
+  let produce := (kvNat ws "produce").getD 1 = 1
+  let n := (kvNat ws "users").getD 3
+  let e0 := (kvNat ws "epoch0").getD 0
+  Farm.init kind same dsc pb produce ((List.range n).map (· + 1)) e0
+
+def view (s : St) : List String → Option String
+  | ["calcRewards", u, a, n] => do
+      let att ← s.attrs (← n.toNat?)
+      let v ← calcRewards s (← u.toNat?) (← a.toNat?) att.rps
+      pure (toString v)
+  | _ => none
+
+def handle (s : St) (line : String) : St × Option String :=
+  match words line with
+  | "W" :: rest => (initOf rest, some (" ".intercalate ("W" :: rest)))
+  | "O" :: n :: rest =>
+      match (parseOp rest).bind (step s) with
+      | some (s', o) =>
+          (s', some s!"R {n} ok tok={o.nonce}:{o.amt} rew={o.rew} farming={o.farming} b={o.boosted} | {showState s'}")
+      | none => (s, some s!"R {n} err")
+  | "Q" :: n :: rest =>
+      match view s rest with
+      | some v => (s, some s!"V {n} ok {v}")
+      | none => (s, some s!"V {n} err")
+  | _ => (s, none)
+
+end Mx.FarmDriver
+
+def main : IO Unit :=
+  Mx.Proto.mainLoop (Mx.Farm.init .mint false 1000000000000 1000 true [1, 2, 3] 0) Mx.FarmDriver.handle
